@@ -25,6 +25,8 @@ func runC20(c *Check, tier string) {
 	ruleMemoKeyComplete(c, "R20f", "hashing", "dag", "selection", "cmd", "loading")
 	ruleEdgesFromAllNodes(c, "R20g")
 	ruleNoDigestInDescription(c, "R20h")
+	// the key reads exactly the files `owners` attributes to the target: one file per listed input
+	ruleR09f(c, "R20i")
 }
 
 // cobraCommands maps the `Use` word of each cobra command to its Run function.
@@ -373,7 +375,7 @@ func ruleR20c(c *Check) {
 }
 
 func ruleR20d(c *Check) {
-	c.Rule("R20e", "owners and changes derive the compared path from Target.Inputs (resolved) joined with the package through filepath.Join (which cleans ./ and ..) and made absolute by the workspace helper", 2)
+	c.Rule("R20e", "owners and changes derive the compared path from Target.Inputs (resolved) joined with the package through filepath.Join (which cleans ./ and ..) and made absolute by the workspace helper, and compare it as a whole (no prefix / substring / pattern test)", 2)
 	cmds := cobraCommands(c)
 	abs := c.P.Func("config", "", "GetPathAbsoluteToWorkspaceRoot")
 	for _, name := range []string{"owners", "changes"} {
@@ -411,6 +413,41 @@ func ruleR20d(c *Check) {
 			}
 		}
 		c.Require(ok, "R20e", "input-path/"+name, "compares GetPathAbsoluteToWorkspaceRoot(filepath.Join(package, resolved input))", why, c.P.Pos(fn.Pos()))
+		// ... and compares it as a whole: a substring or prefix test on a path has no component boundary
+		// (Dockerfile is a prefix of Dockerfile.dev)
+		var paths []Node
+		for f := range fns {
+			if engine.InPackage(f, "cmd") {
+				for _, s := range callsToFn(c, f, abs) {
+					if v := s.Value(); v != nil {
+						paths = append(paths, v)
+					}
+				}
+			}
+		}
+		if len(paths) == 0 {
+			continue
+		}
+		fwd := c.G.Forward(paths, func(e *engine.Edge) bool {
+			return e.Via == nil || engine.InPackage(e.Via.Parent(), "cmd")
+		})
+		partial := ""
+		for f := range fns {
+			if !engine.InPackage(f, "cmd") {
+				continue
+			}
+			for _, s := range engine.SitesIn(f) {
+				switch engine.CalleeName(s) {
+				case "strings.HasPrefix", "strings.HasSuffix", "strings.Contains", "strings.Index", "strings.EqualFold", "path/filepath.Match", "path.Match":
+					for _, a := range s.Common().Args {
+						if fwd.Has(a) {
+							partial = engine.CalleeName(s) + " at " + c.P.InstrPos(s)
+						}
+					}
+				}
+			}
+		}
+		c.Require(partial == "", "R20e", "input-path-compared-whole/"+name, "the input path is compared by equality", "the absolute input path is matched with "+partial+" instead of being compared as a whole: a file whose path is a string prefix of another target's input (Dockerfile / Dockerfile.dev, app.yaml / app.yaml.tmpl) is attributed to the wrong owners", c.P.Pos(fn.Pos()))
 	}
 }
 
